@@ -89,8 +89,8 @@ class C18(engine.Property):
     title = "true singletons: at most one live instance per class between clears"
     max_steps = 60
     budget = {
-        "quick": {"runs": 40000, "wall_cap_s": 600},
-        "thorough": {"runs": 3000000, "wall_cap_s": 3000},
+        "quick": {"runs": 150000, "wall_cap_s": 600},
+        "thorough": {"runs": 5000000, "wall_cap_s": 5400},
     }
     rule = (
         "one evaluation = one seeded history of constructions (arbitrary positional / "
